@@ -265,7 +265,7 @@ class CollectionFromDicts(Contract):
     id = "C09.SigmaCollection.from_dicts"
     target = "sigma.collection:SigmaCollection.from_dicts"
     props = ("C09", "C07", "C11")
-    cases = tuple((seq, col) for seq in (("rule", "corr", "filter"), ("filter", "rule"), ("global", "rule", "reset", "rule"), ("rule", "repeat"), ("rule", "bogus", "corr"), ()) for col in (False, True))
+    cases = tuple((seq, col) for seq in (("rule", "corr", "filter"), ("filter", "rule"), ("global", "rule", "reset", "rule"), ("rule", "repeat"), ("rule", "bogus", "corr"), (), ("global", "filter", "corr", "rule")) for col in (False, True))
 
     def setup(self, E):
         E._c09_trace = []
@@ -347,6 +347,10 @@ class CollectionFromDicts(Contract):
             d1, d2 = tr[0][1][0], tr[1][1][0]
             c.require(isinstance(d1, SObj) and d1.cls == "Merged" and d1.fields["base"] is inp["docs"][1] and d1.fields["update"] is inp["docs"][0], "a rule after `global` is merged with the global document")
             c.require(isinstance(d2, SObj) and d2.cls == "Merged" and d2.fields["base"] is inp["docs"][3] and d2.fields["update"] == {}, "a rule after `reset` is merged with nothing")
+        if seq == ("global", "filter", "corr", "rule"):
+            c.require(tr[0][1][0] is inp["docs"][1] and tr[1][1][0] is inp["docs"][2], "filters and correlation rules are loaded from their OWN document: a global document applies to detection rules only")
+            d3 = tr[2][1][0]
+            c.require(isinstance(d3, SObj) and d3.cls == "Merged" and d3.fields["base"] is inp["docs"][3] and d3.fields["update"] is inp["docs"][0], "the detection rule after them is still merged with the global document")
         if seq == ("rule", "repeat"):
             d2 = tr[1][1][0]
             c.require(isinstance(d2, SObj) and d2.cls == "Merged" and d2.fields["base"] is inp["docs"][0] and d2.fields["update"] is inp["docs"][1], "`repeat` loads the previous rule document updated with this one")
